@@ -28,7 +28,8 @@ BMCT = "bounded model checking of the real Rust code (Kani/CBMC + CaDiCaL) over 
 CHECKS["C19"] = {
 	"text": "One no-panic / no-abort / bounded-allocation harness per decoding entry point, decided by CBMC for EVERY byte string of the stated length "
 		"(exact sizes for the fixed-size headers: 66, 33, 127 bytes; short buffers and shape-directed inputs for the variable-length decoders). "
-		"Crashing inputs are single byte patterns (length fields, multi-byte varints) that sampling misses; a solver verdict over all bytes finds them.",
+		"Crashing inputs are single byte patterns (length fields, multi-byte varints) that sampling misses; a solver verdict over all bytes finds them. "
+		"Also the argument gate of filter_bbox / convert --bbox: GeoBBox::check accepts exactly the valid boxes for every f64 bit pattern (NaN, infinities), so nothing invalid reaches intersect_geo_bbox(..).unwrap().",
 	"note": "vec![0u8; n] routed through an allocation monitor (n <= 8*len + 64); format!/Backtrace stubbed (a panic inside a Display impl would be missed); u32::pow(2,z) model; HashMap model in BlockIndex/VTLPMap. "
 		"ByteIterator::format_error (the error excerpt of every JSON/CSV syntax error) from an arbitrary iterator state at positions 1 and 2. Outside: parse_vpl, number parsing, JSON/CSV text parsers themselves (from_utf8 over symbolic bytes: no verdict within reach, DESIGN 0.2 item 5), whole MBTiles/tar/directory containers, real decompressors.",
 	"technique": BMCT + "; shape-directed inputs for variable-length decoders",
@@ -83,7 +84,7 @@ CHECKS["C13"] = {
 CHECKS["C09"] = {
 	"text": "What decides which tiles a filter stage passes is the coverage pyramid it consults (lookup: contains_coord guard; stream: intersect_pyramid). CBMC decides for pyramids with all 32 levels symbolic: "
 		"set_zoom_min/max keep exactly the levels in [min, max] for every u8 pair (incl. min > max, > 31); intersect is the level-wise set intersection; contains_coord and intersect_pyramid are exact; "
-		"a valid geographic box always maps to a tile box (no error for filter_bbox to unwrap).",
+		"a valid geographic box always maps to a tile box (no error for filter_bbox to unwrap), and GeoBBox::check - the gate filter_bbox puts in front of that unwrap - accepts exactly the valid boxes for every f64 bit pattern (NaN included).",
 	"note": "The filter Operation objects themselves (Box<dyn OperationTrait>, async_trait futures) are out of reach for CBMC (no verdict at the smallest bound, DESIGN 0.2 item 3); that their lookup guards with and their stream clips by exactly this pyramid is decided by Engine B: "
 		"the guard/clip call skeleton of filter_zoom / filter_bbox get_tile_data and get_tile_stream is extracted from the nightly MIR and z3 (thorough: also cvc5) decides lookup = coverage and stream = lookups inside the box for every level, coverage box (also empty), request box and tile; a SAT model is replayed on real pipelines over from_debug. Build glue / VPL parsing outside.",
 	"technique": BMCT + "; plus symbolic encoding of the compiler's MIR (-Zunpretty=mir -> SMT-LIB2), z3 / cvc5, for the async operations",
